@@ -64,7 +64,7 @@ def build_gnodes(date: str):
         args = list(inspect.signature(f).parameters)
         e = reg.get(n) if n in functions else None
         if e is not None:
-            fd = ruleir.strip_docstrings(ruleir.fundef(extract.source_of(e)))
+            fd = ruleir.fundef_inlined(extract.source_of(e), extract.helpers_of(e))
             if e["skip_vectorization"] or not ruleir.in_fragment(fd):
                 nodes.append({"name": n, "kind": {"k": "opaque"}})
             else:
@@ -153,6 +153,7 @@ def system_search(run, rnd, dates, n_pops):
             except KeyError:
                 pass
             elterngeld_cap(run, res, params, date, rep)
+        supplied_counts_search(run, rnd, date, max(4, n_pops // 3))
         # directed: families in which every bonus of Elterngeld applies, claimant's prior income far above the cap
         for income in (2771.0, 4000.0, 20000.0, 1.0e6):
             p = popgen.Pop(rnd, date)
@@ -174,6 +175,52 @@ def system_search(run, rnd, dates, n_pops):
             if ok:
                 run.case({"date": date, "elterngeld-family": common.digest(popgen.frame_to_json(df))})
                 elterngeld_cap(run, res, params, date, {"date": date, "data": popgen.frame_to_json(df)})
+
+
+def supplied_counts_search(run, rnd, date, n_pops):
+    """Person-level count nodes (number of children / claims linked to a person: `…anz_…`, declared -> int, no group
+    suffix) are routinely supplied as data -- gettsim's own synthetic data does so.  Any non-negative count is a valid
+    value there; the default targets must stay finite and non-negative."""
+    import inspect
+    from _gettsim.config import DEFAULT_TARGETS, SUPPORTED_GROUPINGS
+    dag, fno = popgen.graph(date)
+    counts = []
+    for n in popgen.computed_nodes(date):
+        f = fno.get(n)
+        if f is None or "anz_" not in n or any(n.endswith("_" + g) for g in SUPPORTED_GROUPINGS):
+            continue
+        if getattr(f, "__annotations__", {}).get("return") in (int, "int"):
+            counts.append(n)
+    run.extra.setdefault("person_level_count_nodes", {})[date] = counts
+    for k in range(max(n_pops, len(counts))):
+        df, kinds = popgen.population(rnd, date, n_clusters=rnd.randint(1, 3))
+        df = df.copy()
+        adult = (df["alter"] >= 18).to_numpy()
+        # every count node is supplied at least once, the rest at random
+        chosen = sorted(set(([counts[k]] if k < len(counts) else []) + rnd.sample(counts, min(len(counts), rnd.randint(0, 2)))))
+        for c in chosen:
+            vals = [rnd.choice([0, 1, 2, 5, 8, 12]) if a else 0 for a in adult]
+            if adult.any():
+                vals[int(np.argmax(adult))] = rnd.choice([8, 12])
+            df[c] = np.asarray(vals, dtype="int64")
+        if rnd.random() < 0.7:
+            df["bruttolohn_m"] = np.where(adult, float(rnd.choice([600, 1500, 3000, 8000])), 0.0)
+            df["selbstständig"] = False
+        ok, res = run.attempt(f"simulate with supplied counts {chosen} at {date}", popgen.simulate, df, date,
+                              replay={"date": date, "data": popgen.frame_to_json(df)})
+        if not ok:
+            continue
+        run.case({"date": date, "supplied": chosen, "pop": common.digest(popgen.frame_to_json(df))})
+        for t in DEFAULT_TARGETS:
+            v = res[t].to_numpy()
+            if v.dtype.kind == "f" and not np.isfinite(v).all():
+                run.hit({"kind": "non-finite", "node": t}, f"{t} at {date} is not finite when {chosen} are supplied",
+                        {"date": date, "data": popgen.frame_to_json(df), "node": t})
+            elif v.dtype.kind in "fi" and (v < -1e-9).any():
+                i = int(np.argmin(v))
+                run.hit({"kind": "negative-target", "node": t},
+                        f"default target {t} at {date} is {v.min()} for a person with supplied counts "
+                        f"{ {c: int(df[c].iloc[i]) for c in chosen} }", {"date": date, "data": popgen.frame_to_json(df), "node": t, "row": i})
 
 
 def elterngeld_cap(run, res, params, date, rep):
@@ -200,7 +247,7 @@ def run(tier: str) -> int:
     quick = tier == "quick"
     r.rule = ("static: verified sign analysis (Core/Sign.lean) over the dependency graph of the default targets rebuilt from the "
               "rule sources at every sampled date: one obligation per default target 'non-negative' and per cap 'after <= before'; "
-              "dynamic: corner populations (zero / 10^5..10^7 incomes and wealth, negative rental income, ages 0-100, big families, "
+              "dynamic: populations with supplied person-level count columns (0…12 children / claims); corner populations (zero / 10^5..10^7 incomes and wealth, negative rental income, ages 0-100, big families, "
               "pensioners, self-employed) on the real system, all nodes finite, targets >= 0, caps. distinct = (date, obligation) / populations.")
     common.build_and_audit(r, ["C16"], leanchecker=not quick)
     rnd = common.rng("C16")
